@@ -322,21 +322,19 @@ impl Driver {
     pub fn cancel(&mut self, key: ErasedKey) {
         instrument!(compio_log::Level::TRACE, "cancel", ?key);
         trace!("cancel RawOp");
-        unsafe {
-            #[allow(clippy::useless_conversion)]
-            if self
-                .inner
-                .submission()
-                .push(
-                    &AsyncCancel::new(key.as_raw() as _)
-                        .build()
-                        .user_data(Self::CANCEL)
-                        .into(),
-                )
-                .is_err()
-            {
-                warn!("could not push AsyncCancel entry");
-            }
+        // Go through `push_raw`: it makes room when the submission queue is full,
+        // so the cancellation is not lost.
+        #[allow(clippy::useless_conversion)]
+        if self
+            .push_raw(
+                AsyncCancel::new(key.as_raw() as _)
+                    .build()
+                    .user_data(Self::CANCEL)
+                    .into(),
+            )
+            .is_err()
+        {
+            warn!("could not push AsyncCancel entry");
         }
     }
 
